@@ -59,7 +59,10 @@ VOCAB: Dict[int, tuple] = {
     15: (IA, wire.T_TXT, 3, b'\x03x=1', [IA], None),          # same as 7 except for the class
     16: (IC, wire.T_SRV, 1, (0, 0, 631, H2), [IC], [H2]),
     17: (HW, wire.T_CNAME, 1, H1, [HW, 'WWW.local.'], [H1, 'H1.local.']),   # decoded into the pointer class, but not a PTR
+    18: (IA, wire.T_NSEC, 1, (IA, [28]), [IA], None),       # what the library announces for a service of its own without IPv6 address
 }
+# the service the host registers itself in scenarios with a `reg` step: its records are identities 1, 4, 7, 9 and 18
+OWN = {'type': T1, 'name': IA, 'port': 80, 'txt': b'\x03x=1', 'host': H1, 'addr': b'\x0a\x00\x00\x01', 'host_ttl': 120, 'other_ttl': 4500}
 NAMES = [T1, T2, IA, IB, IC, H1, H2, HW]
 HOSTS = [H1, H2]
 
@@ -205,6 +208,8 @@ class Recorder:
         self._in_recv = True
         did = self.did.setdefault(data, len(self.did) + 1)
         items = self.items_by_data.get(data)
+        if items is None:
+            items = self._project(data)
         if items is not None:
             # (a response that echoes a QU question is exempt from the duplicate guard like a query with one: finding D9)
             self.ev('recv', did=did, q=False, qu=self._has_qu(data), items=[{'id': it['id'], 'ttl': capttl(it['ttl']), 'fl': bool(it.get('fl'))}
@@ -217,6 +222,31 @@ class Recorder:
             except wire.WireError:
                 isq, qu = True, False
             self.ev('recv', did=did, q=isq, qu=qu, items=[])
+
+    @staticmethod
+    def _project(data: bytes) -> Optional[List[dict]]:
+        """A response that was not scripted (the host's own announcements and answers, looped back by the link): its records in
+        wire order, when all of them are identities of the vocabulary."""
+        try:
+            m = wire.parse(data)
+        except wire.WireError:
+            return None
+        if not m.is_response:
+            return None
+        out = []
+        for r in m.records():
+            rd = r.rd
+            if r.type == wire.T_NSEC:
+                rd = (rd[0].text if hasattr(rd[0], 'text') else rd[0], list(rd[1]))
+            elif r.type in (wire.T_PTR, wire.T_CNAME):
+                rd = rd.text if hasattr(rd, 'text') else rd
+            elif r.type == wire.T_SRV:
+                rd = (rd[0], rd[1], rd[2], rd[3].text if hasattr(rd[3], 'text') else rd[3])
+            i = KEY_TO_ID.get((low(r.name.text), r.type, r.cls & 0x7FFF, rdkey(r.type, rd)), 0)
+            if not i:
+                return None
+            out.append({'id': i, 'ttl': r.ttl, 'fl': bool(r.cls & 0x8000)})
+        return out
 
     @staticmethod
     def _has_qu(data: bytes) -> bool:
@@ -503,6 +533,16 @@ class Recorder:
                         await self.cancel_sync(b)
                     else:
                         await b.async_cancel()
+            elif op == 'reg':
+                # the host is a responder as well: it registers a service of a type it browses (its announcements, and its answers
+                # to its own browsers' questions, come back from the link like anybody's)
+                from zeroconf import ServiceInfo
+                info = ServiceInfo(OWN['type'], OWN['name'], OWN['port'], properties=OWN['txt'], server=OWN['host'], addresses=[OWN['addr']],
+                                   host_ttl=OWN['host_ttl'], other_ttl=OWN['other_ttl'])
+                self.own_task = await self.host.aiozc.async_register_service(info, cooperating_responders=True)
+                self.ev('reg')
+                for _ in range(4):
+                    await asyncio.sleep(0)          # the first announcement comes back from the link
             elif op == 'snap':
                 pass
             else:
@@ -570,6 +610,7 @@ def gen_scenario(rng: random.Random, sid: str, n_dgrams: int, with_dups: bool = 
     ptr_ids = [1, 2, 3]
     prev_items: Optional[List[dict]] = None
     live_b: List[int] = []
+    registered = False
     next_bid = 1
     for k in range(n_dgrams):
         r = rng.random()
@@ -583,10 +624,15 @@ def gen_scenario(rng: random.Random, sid: str, n_dgrams: int, with_dups: bool = 
             dt = rng.randint(0, 6000000)
         t += dt
         steps.append({'op': 'at', 't': t})
+        if browsers and not registered and rng.random() < 0.04:
+            steps.append({'op': 'reg'})
+            registered = True
         if browsers and (len(live_b) < browsers) and rng.random() < 0.25:
             types = [T1] if rng.random() < 0.6 else ([T2] if rng.random() < 0.5 else [T1, T2])
             bst = {'op': 'bstart', 'bid': next_bid, 'types': types, 'guard': True, 'oneshot': rng.random() < 0.3}
-            if not bst['oneshot'] and rng.random() < 0.25:
+            # (not next to a service of the host's own: its start takes several iterations of the loop, and what the link brings back
+            # meanwhile -- the host's own announcements and answers -- would fall into the middle of it)
+            if not bst['oneshot'] and not registered and rng.random() < 0.25:
                 bst['sync'] = True          # the thread-based ServiceBrowser of the synchronous API
             steps.append(bst)
             live_b.append(next_bid)
